@@ -394,7 +394,7 @@ Definition step_premise (D : decls) (trie : list T.str) (p : premise) (G : ctx) 
               bindM (bterm trie G l) (fun t =>
               bindM (add_or_refine true G1 w t) (fun o2 =>
               ret (match o2 with Some G2 => Some [G2] | None => None end)))
-          | _ => bindM (bterm trie G r) (fun _ => bindM (bterm trie G l) (fun _ => ret (Some [G1])))
+          | _ => ret (Some [G1])
           end
       end)
   | PIneq l r => ret (Some [G])                 (* after fix N90 *)
